@@ -405,7 +405,8 @@ SAFE_BUILTINS = {
     "sorted": sorted, "any": any, "all": all, "enumerate": enumerate, "zip": zip, "abs": abs, "sum": sum, "repr": repr, "ord": ord, "chr": chr, "set": set,
     "frozenset": frozenset, "dict": dict, "iter": iter, "next": next, "map": map, "filter": filter,
 }
-SAFE_RE = {"escape": re.escape, "sub": re.sub, "split": re.split, "subn": re.subn}
+SAFE_RE = {"escape": re.escape, "sub": re.sub, "split": re.split, "subn": re.subn, "match": re.match, "fullmatch": re.fullmatch, "search": re.search, "compile": re.compile, "findall": re.findall}
+RE_OBJECT_METHODS = {"group", "groups", "groupdict", "start", "end", "span", "match", "fullmatch", "search", "sub", "split", "findall", "expand"}
 PY_ERRORS = (IndexError, TypeError, ValueError, KeyError, AttributeError, ZeroDivisionError, StopIteration, re.error)
 
 
@@ -923,6 +924,8 @@ class Evaluator:
             raise Unknown(e, "a single character of the opaque text")
         if isinstance(idx, (SymInt, SymStr)):
             raise Unknown(e, "symbolic index")
+        if isinstance(box, (FuncRef, LibRef, Bound, Closure)):
+            raise Unsupported(e, "subscript of a function")
         return box[idx]
 
     def e_Attribute(self, e, env, fi):
@@ -932,9 +935,16 @@ class Evaluator:
                 om = self.repo.modules.get(base.name[4:])
                 if om is not None:
                     return self.module_name(om, e.attr, e)
+            if base.name == "re" and isinstance(getattr(re, e.attr, None), re.RegexFlag):
+                return getattr(re, e.attr)
             return LibRef(base.name + "." + e.attr)
         if is_strlike(base) and e.attr in STR_METHODS:
             return Bound(base, e.attr)
+        if isinstance(base, (re.Match, re.Pattern)):
+            if e.attr in RE_OBJECT_METHODS:
+                return Bound(base, e.attr)
+            if e.attr in ("pattern", "string", "lastindex", "flags"):
+                return getattr(base, e.attr)
         if isinstance(base, (list, dict, set, tuple)) and e.attr in ("append", "extend", "insert", "pop", "get", "items", "keys", "values", "add", "index", "count", "reverse", "sort", "copy", "update", "setdefault"):
             return Bound(base, e.attr)
         raise Unsupported(e, f"attribute .{e.attr}")
@@ -1067,6 +1077,12 @@ class Evaluator:
         raise Unsupported(node, f"library call {name}()")
 
     def method(self, recv, name: str, args: list, kwargs: dict, node):
+        if isinstance(recv, (re.Match, re.Pattern)):
+            if self._sym_args(args, kwargs):
+                raise Unknown(node, f"regex .{name}() on a symbolic text")
+            if any(isinstance(a, (FuncRef, LibRef, Bound, Closure)) for a in args):
+                raise Unsupported(node, f"regex .{name}() with a function argument")
+            return getattr(recv, name)(*args, **kwargs)
         if isinstance(recv, (list, dict, set, tuple)):
             if self._sym_args(args, kwargs) and name not in ("append", "extend", "insert", "add", "setdefault", "update"):
                 raise Unknown(node, f".{name}() with a symbolic argument")
